@@ -16,11 +16,17 @@ var repoDir = func() string {
 	return "/repo"
 }()
 
-const (
-	verifDir   = "/verif"
-	harnessDir = "/verif/harness"
-	modPath    = "github.com/ddddddO/gtree"
-)
+// verifDir is /verif for every registered check; VERIF_DIR points at a snapshot of it (background runs started with
+// `vp run`, which must not write into /verif while it is being edited).
+var verifDir = func() string {
+	if d := os.Getenv("VERIF_DIR"); d != "" {
+		return d
+	}
+	return "/verif"
+}()
+var harnessDir = verifDir + "/harness"
+
+const modPath = "github.com/ddddddO/gtree"
 
 func usage() {
 	fmt.Fprintln(os.Stderr, `usage:
